@@ -64,13 +64,15 @@ def run(ctx):
     if not ctx.quick:
         runs.append(("grow", "PropsGrow_thorough.cfg", 300))     # per worker
     runs.append(("views", "PropsViews.cfg", None))
+    runs.append(("big", "PropsBig.cfg", None))
     runs.append(("sites", "PropsSites_%s.cfg" % tier, None))
     outs = {}
 
     def one(run):
         label, cfg, sim = run
         return label, cfg, sim, ctx.tlc("MCProps", cfg, workers=4, timeout=3000, xmx="6g",
-                                        simulate=sim, depth=9 if sim else None, coverage=not sim)
+                                        simulate=sim, depth=9 if sim else None, coverage=not sim,
+                                        xss="256m" if label == "big" else None)
 
     # the runs are independent: side by side (4 workers each)
     from concurrent.futures import ThreadPoolExecutor
@@ -98,7 +100,7 @@ def run(ctx):
     # ---- G: cases
     trees = os.path.join(ctx.out, "cases-trees.ndjson")
     n_trees = extract_cases(outs["trees"], trees)
-    for extra in ("views", "grow"):
+    for extra in ("views", "big", "grow"):
         if extra in outs:
             more = os.path.join(ctx.out, "cases-%s.ndjson" % extra)
             n_more = extract_cases(outs[extra], more)
@@ -191,6 +193,8 @@ def run(ctx):
         "well-known keys) and ThreadLocalCtxt snapshots (1 frame, 2-3 nested frames with overlapping keys) are modelled; which frame's "
         "value a snapshot keeps for a repeated key is C03's subject: every resolution is enumerated and the one the real snapshot shows "
         "is judged (get/enumeration agreement, dedup, unique claim)",
+        "large collections (PropsBig.cfg: 21..200 properties, duplicate-key patterns) are a chosen family, not a product with the "
+        "other node kinds",
         "bounded: %s | %s" % (vlib.cfg_header(os.path.join(vlib.SPEC, "Props_%s.cfg" % tier)),
                               vlib.cfg_header(os.path.join(vlib.SPEC, "PropsSites_%s.cfg" % tier))),
     ]
